@@ -510,6 +510,61 @@ def _cvc5(smt2, timeout_s):
         os.unlink(path)
 
 
+def _child(conn, task):
+    try:
+        conn.send(_solve(task))
+    except BaseException as e:  # noqa
+        try:
+            conn.send({"verdict": "error", "reason": f"{type(e).__name__}: {e}", "time_s": 0})
+        except Exception:  # noqa
+            pass
+    finally:
+        conn.close()
+
+
+def _run_guarded(tasks, procs):
+    """One forked process per obligation, at most `procs` at a time, each under a HARD wall-clock limit: z3's own timeout is a soft limit that
+    some quantifier-heavy queries ignore (measured: one obligation ran for 30 minutes with a 10 s timeout).  A process that exceeds
+    2 x its soft budget + 20 s is killed and its obligation is reported `unknown` (never a verdict)."""
+    ctx = mp.get_context("fork")
+    results = [None] * len(tasks)
+    pending = list(range(len(tasks)))
+    running = {}  # index -> (process, parent_conn, deadline)
+    while pending or running:
+        while pending and len(running) < procs:
+            k = pending.pop(0)
+            pc, cc = ctx.Pipe(duplex=False)
+            pr = ctx.Process(target=_child, args=(cc, tasks[k]))
+            pr.start()
+            cc.close()
+            running[k] = (pr, pc, time.time() + 2 * tasks[k][1] / 1000.0 + 20)
+        done = []
+        for k, (pr, pc, deadline) in running.items():
+            if pc.poll(0):
+                try:
+                    results[k] = pc.recv()
+                except EOFError:
+                    results[k] = {"verdict": "unknown", "reason": "solver process died", "time_s": 0}
+                done.append(k)
+            elif not pr.is_alive():
+                results[k] = {"verdict": "unknown", "reason": f"solver process exited with code {pr.exitcode}", "time_s": 0}
+                done.append(k)
+            elif time.time() > deadline:
+                pr.terminate()
+                pr.join(2)
+                if pr.is_alive():
+                    pr.kill()
+                results[k] = {"verdict": "unknown", "reason": "hard wall-clock limit exceeded (solver ignored its timeout); process killed", "time_s": round(2 * tasks[k][1] / 1000.0 + 20, 1)}
+                done.append(k)
+        for k in done:
+            pr, pc, _ = running.pop(k)
+            pc.close()
+            pr.join(1)
+        if not done:
+            time.sleep(0.005)
+    return results
+
+
 def discharge(obligations: list[Obligation], timeout_s=10, procs=None, cvc5_timeout_s=20):
     """Returns {obligation id: result dict}.  z3 first; cvc5 on the SMT-LIB dump of z3's unknowns."""
     global _TASKS
@@ -519,12 +574,7 @@ def discharge(obligations: list[Obligation], timeout_s=10, procs=None, cvc5_time
     if not obligations:
         return results
     tasks = [(k, int((min(3, timeout_s) if obligations[k].kind == "cover" else timeout_s) * 1000), True) for k in range(len(obligations))]
-    if len(obligations) <= 2 or procs == 1:
-        rs = [_solve(t) for t in tasks]
-    else:
-        ctx = mp.get_context("fork")
-        with ctx.Pool(min(procs, len(obligations))) as pool:
-            rs = pool.map(_solve, tasks, chunksize=1)
+    rs = _run_guarded(tasks, min(procs, len(obligations)))
     for ob, r in zip(obligations, rs):
         if r["verdict"] == "unknown" and r.get("smt2"):
             v = _cvc5(r["smt2"], cvc5_timeout_s)
